@@ -1611,7 +1611,10 @@ class _GroupElem(ABC):
 
         assert isinstance(line, Line)
 
-        idx = np.where(line.Contains(self.coord, 1e-12))[0]
+        # a tolerance relative to the size of the coordinates: the nodes gmsh puts on a line of
+        # length 1e5 are 1e-11 off it
+        tol = 1e-12 * max(1.0, float(np.abs(self.coord).max()), line.length)
+        idx = np.where(line.Contains(self.coord, tol))[0]
         return self.__nodes[idx].copy()
 
     def Get_Nodes_Domain(self, domain: "Domain") -> _types.IntArray:
@@ -1619,7 +1622,8 @@ class _GroupElem(ABC):
 
         assert isinstance(domain, Domain)
 
-        idx = np.where(domain.Encloses(self.coord, 1e-12))[0]
+        tol = 1e-12 * max(1.0, float(np.abs(self.coord).max()))
+        idx = np.where(domain.Encloses(self.coord, tol))[0]
         return self.__nodes[idx].copy()
 
     def Get_Nodes_Circle(self, circle: "Circle", onlyOnEdge=False) -> _types.IntArray:
